@@ -56,11 +56,13 @@ Definition atom_of (tok : text) : sx :=
   end.
 
 (* ---------- parser ---------- *)
+(* linear-time reversal (List.rev is quadratic; tokens can be thousands of characters long) *)
+Definition frev {A} (l : list A) : list A := rev_append l [].
 Definition frames := list (list sx).   (* innermost first, each frame reversed *)
 Definition push_item (x : sx) (st : frames) : frames :=
   match st with [] => [[x]] | f :: r => (x :: f) :: r end.
 Definition flush (tok : text) (st : frames) : frames :=
-  match tok with [] => st | _ => push_item (atom_of (rev tok)) st end.
+  match tok with [] => st | _ => push_item (atom_of (frev tok)) st end.
 Fixpoint parse_go (s : text) (tok : text) (st : frames) : frames :=
   match s with
   | [] => flush tok st
@@ -68,7 +70,7 @@ Fixpoint parse_go (s : text) (tok : text) (st : frames) : frames :=
       if Ascii.eqb c "(" then parse_go r [] ([] :: flush tok st)
       else if Ascii.eqb c ")" then
         match flush tok st with
-        | f :: st' => parse_go r [] (push_item (SL (rev f)) st')
+        | f :: st' => parse_go r [] (push_item (SL (frev f)) st')
         | [] => parse_go r [] []
         end
       else if (Ascii.eqb c " " || Ascii.eqb c "009" || Ascii.eqb c "010" || Ascii.eqb c "013")%bool
@@ -77,7 +79,7 @@ Fixpoint parse_go (s : text) (tok : text) (st : frames) : frames :=
   end.
 Definition parse_sx (s : text) : list sx :=
   match parse_go s [] [[]] with
-  | [f] => rev f
+  | [f] => frev f
   | _ => [SY "unbalanced"]
   end.
 
